@@ -212,6 +212,12 @@ impl Block for AuDecode {
                 let data_offset = i.iter().take(4).copied().collect::<Vec<_>>();
                 let data_offset = u32::from_be_bytes(data_offset.try_into().unwrap());
                 i.consume(4);
+                if data_offset < 24 {
+                    // Shorter than the fixed part of the header.
+                    return Err(Error::msg(format!(
+                        ".au data offset {data_offset} is less than the 24 byte header"
+                    )));
+                }
                 self.state = DecodeState::WaitingHeader(data_offset as usize);
             }
             DecodeState::WaitingHeader(data_offset) => {
